@@ -106,6 +106,9 @@ func (p *Plenc) CodecForTypeRegistry(registry plenccodec.CodecRegistry, typ refl
 
 	switch typ.Kind() {
 	case reflect.Ptr:
+		if typ.Elem().Kind() == reflect.Map {
+			return nil, fmt.Errorf("pointers to maps are not supported")
+		}
 		subc, err := p.CodecForTypeRegistry(registry, typ.Elem(), tag)
 		if err != nil {
 			return nil, err
@@ -120,6 +123,9 @@ func (p *Plenc) CodecForTypeRegistry(registry plenccodec.CodecRegistry, typ refl
 
 	case reflect.Slice:
 		subt := typ.Elem()
+		if subt.Kind() == reflect.Map {
+			return nil, fmt.Errorf("slices of maps are not supported")
+		}
 		// We assume for now that any tag here will be selecting the array
 		// treatment, not the registry for the underlying type.
 		subc, err := p.CodecForTypeRegistry(registry, subt, "")
